@@ -419,6 +419,45 @@ def run_sup(ctx, case):
             ctx.fail('sup|%s|%s|%s' % (case['style'], form, 'resolved' if resolved else 'unresolved'), 'loader=%s follow_links=%s: expected %r got %r' % (loader, follow, want[:3], got[:3]), case)
         if (di.supplementary_dwarfinfo is not None) != resolved:
             ctx.fail('sup|%s|supplementary_dwarfinfo-presence' % case['style'], 'loader=%s follow_links=%s -> %r' % (loader, follow, di.supplementary_dwarfinfo), case)
+    # the same pair on disk, reached through ELFFile.load_from_path and the library's own relative loader: dwz-style link name with '..',
+    # the directory of the main file reached through its real path and through a directory symlink of another depth (the operating system
+    # resolves the symlink before '..'); a namesake with other strings sits where a textual collapse of 'link/..' would look
+    try:
+        import shutil
+        import tempfile
+        root = tempfile.mkdtemp(prefix='vfc11_', dir='/dev/shm' if os.path.isdir('/dev/shm') else None)
+        try:
+            rel = b'../.dwz/sup.dwz'
+            if case['style'] == 'altlink':
+                extra_d = [('.gnu_debugaltlink', rel + b'\0' + bytes(range(20)), 0)]
+            else:
+                extra_d = [('.debug_sup', D.u(le, 2, 5) + b'\0' + rel + b'\0' + b'\x00', 0)]
+            main_d = build_container(payload, meta, {'t': 'plain'}, extra_sections=extra_d)['main']
+            decoy_str = bytes((b ^ 0x01) if b else 0 for b in sup_str)
+            decoy = build_container(dict(sup_payload, **{'.debug_str': decoy_str}), meta, {'t': 'plain'}, extra_sections=sup_extra)['main']
+            os.makedirs(os.path.join(root, 'real', 'a', 'bin'))
+            os.makedirs(os.path.join(root, 'real', 'a', '.dwz'))
+            os.makedirs(os.path.join(root, '.dwz'))
+            for pth, blob in ((('real', 'a', 'bin', 'main.elf'), main_d), (('real', 'a', '.dwz', 'sup.dwz'), sup), (('.dwz', 'sup.dwz'), decoy)):
+                with open(os.path.join(root, *pth), 'wb') as fh:
+                    fh.write(blob)
+            os.symlink(os.path.join('real', 'a', 'bin'), os.path.join(root, 'lnk'))
+            for via, pth in (('real-path', os.path.join(root, 'real', 'a', 'bin', 'main.elf')), ('directory-symlink', os.path.join(root, 'lnk', 'main.elf'))):
+                ef = L['ELFFile'].load_from_path(pth)
+                try:
+                    di = ef.get_dwarf_info()
+                    cu = next(di.iter_CUs())
+                    got = [bytes(d.attributes['DW_AT_name'].value) if isinstance(d.attributes['DW_AT_name'].value, (bytes, bytearray)) else d.attributes['DW_AT_name'].value
+                           for d in cu.iter_DIEs() if not d.is_null() and d.tag == 'DW_TAG_variable']
+                    if got != strs:
+                        ctx.fail('sup|%s|on-disk|%s' % (case['style'], via), 'load_from_path(%s): expected %r got %r' % (via, strs[:3], got[:3]), case)
+                finally:
+                    ef.close()
+                ctx.count('sup.on-disk.%s' % via)
+        finally:
+            shutil.rmtree(root, ignore_errors=True)
+    except Exception as e:  # noqa
+        ctx.fail_exc('sup|%s|on-disk' % case['style'], e, case)
     ctx.count('sup.%s.%s' % (case['style'], form))
     ctx.case(('sup', main, sup), True, {'k': 'sup', 'style': case['style'], 'form': form, 'cls': cls, 'le': le, 'n': len(strs)})
 
